@@ -390,6 +390,55 @@ func runC17(c *Ctx) {
 		}
 		c.Floor("O5", "PROV label patches", n, 1)
 	}
+	// ---- O8: a failed sync of one group does not hide the other groups. Every loop that syncs group after group
+	// runs to exhaustion, unless the exit hands a non-nil error to the caller (who retries: bind, rollback, start-up).
+	// The pod delete/completion handler returns nothing and is never retried: its loop has no early exit at all.
+	if syncGroup := p.Func(pkgResv, "service", "SyncForGpuGroup"); syncGroup != nil {
+		reachesSync := p.performs(func(in ssa.Instruction) bool {
+			cc, ok := in.(ssa.CallInstruction)
+			if !ok {
+				return false
+			}
+			if cal := calleeOf(cc); cal != nil && sameFunc(cal, syncGroup) {
+				return true
+			}
+			return cc.Common().IsInvoke() && cc.Common().Method.Name() == "SyncForGpuGroup"
+		}, 2)
+		nl := 0
+		seenH := map[*ssa.BasicBlock]bool{}
+		for _, fn := range append(p.FuncsIn("pkg/binder/controllers"), p.FuncsIn(pkgResv)...) {
+			if isTestdataOrMock(fn) {
+				continue
+			}
+			for _, in := range instrsIn(fn, reachesSync) {
+				h := loopHeaderOf(in.Block())
+				if h == nil || seenH[h] {
+					continue
+				}
+				seenH[h] = true
+				nl++
+				loop := naturalLoop(h)
+				bad := ""
+				for b := range loop {
+					if b == h {
+						continue
+					}
+					for _, s := range b.Succs {
+						if loop[s] {
+							continue
+						}
+						// an early exit: acceptable only if every return reachable from it hands back a non-nil error
+						if why := exitHandsError(s); why != "" {
+							bad = fmt.Sprintf("exit at %s: %s", p.Pos(instrPos(b.Instrs[len(b.Instrs)-1])), why)
+						}
+					}
+				}
+				c.Check(bad == "", "O8", "MPT", funcKey(fn)+": every GPU group of the event is synced", instrPos(in), "the loop over the groups ends only by exhaustion, or by returning an error to a caller that retries",
+					"the loop that syncs the GPU groups one by one can stop before the last group without reporting an error ("+bad+"): the groups that come later are never synced for this event and their reservation pods keep holding GPUs without a live consumer")
+			}
+		}
+		c.Floor("O8", "MPT per-group sync loops", nl, 2)
+	}
 	// ---- O7: the reader of the consumer labels sees both label forms the binder writes
 	// (updatePodGPUGroup writes either the single label or one label per group; the sync, the completion handler and the
 	// scheduler's snapshot all learn a pod's groups from GetGpuGroups)
@@ -452,4 +501,37 @@ func runC17(c *Ctx) {
 		}
 		c.Floor("O7", "MPT label scans", scans, 1)
 	}
+}
+
+// exitHandsError: from block b (just outside a loop), every reachable return hands back a non-nil error as its last
+// result; returns "" if so, otherwise what was found.
+func exitHandsError(b *ssa.BasicBlock) string {
+	seen := map[*ssa.BasicBlock]bool{}
+	var visit func(x *ssa.BasicBlock) string
+	visit = func(x *ssa.BasicBlock) string {
+		if seen[x] {
+			return ""
+		}
+		seen[x] = true
+		if ret, ok := x.Instrs[len(x.Instrs)-1].(*ssa.Return); ok {
+			if len(ret.Results) == 0 {
+				return "the function returns nothing"
+			}
+			last := ret.Results[len(ret.Results)-1]
+			if !types.Identical(last.Type(), types.Universe.Lookup("error").Type()) {
+				return "the function has no error result"
+			}
+			if k, isK := last.(*ssa.Const); isK && k.Value == nil {
+				return "returns a nil error"
+			}
+			return ""
+		}
+		for _, s := range x.Succs {
+			if w := visit(s); w != "" {
+				return w
+			}
+		}
+		return ""
+	}
+	return visit(b)
 }
